@@ -233,8 +233,11 @@ class Ctx:
     # ---------------------------------------------------------------- evidence
     def write_evidence(self, level="proof", extra_assumptions=None):
         cov = dict(self.cov)
-        cov.setdefault("obligations", self.obligations)
-        cov.setdefault("discharged", self.discharged)
+        if self.discharged >= 1:
+            cov.setdefault("obligations", self.obligations)
+            cov.setdefault("discharged", self.discharged)
+        else:   # nothing proved on this run (build broken): fall back to the exploration keys
+            cov["obligations_attempted"] = self.obligations
         cov.setdefault("checker_cmd", " ; ".join(dict.fromkeys(self.checker_cmds)) or "n/a")
         tb = ["Coq 8.16.1 kernel + vm_compute (no native_compute)"]
         if self.assumptions:
